@@ -1248,6 +1248,8 @@ def unwrap_phases(a):
     """
     pi = np.pi
 
+    # work on a copy: the caller's array is not modified
+    a = np.array(a)
     diffs = np.diff(a)
     mod_diffs = np.mod(diffs + pi, 2 * pi) - pi
     neg_pi_idx = np.where(mod_diffs == -1 * np.pi)
